@@ -841,6 +841,122 @@ def system_equiv(ctx):
     ctx.cov["system_equivalence_cases"] = done
 
 
+def gen_redefine(rng):
+    """several System() operators re-defining weights / modulation along one sequence (integer -> float -> complex, scalar -> array,
+    array of another shape), an Imaging probe after each"""
+    B = rng.choice([1, 1, 2])
+    P = rng.choice([2, 3])
+    d = rng.choice([1, 2])
+    pos = [[q(rng, -1, 1, 8) for _ in range(d)] for _ in range(P)]
+    shapes = [(P,)] if B == 1 else [(B, 1), (B, P)]      # one rank per case (mixed ranks: the known alignment finding)
+
+    def value(kind, shape):
+        n = int(np.prod(shape)) if shape else 1
+        if kind == "int":
+            v = [rng.choice([0, 1, 1, 2, 3]) for _ in range(n)]
+        elif kind == "float":
+            v = [rng.randint(1, 15) / 8 + rng.choice([0, 0.0625]) for _ in range(n)]
+        elif kind == "negint":
+            v = [-rng.choice([0, 1]) for _ in range(n)]
+        elif kind == "real":
+            v = [-rng.randint(1, 15) / 32 for _ in range(n)]
+        else:
+            v = None
+        return v
+
+    blocks = []
+    nblock = rng.choice([2, 3, 3])
+    wkinds = rng.choice([["int", "float", "float"], ["int", "float", "int"], ["float", "int", "float"], ["int", "int", "float"]])
+    mkinds = rng.choice([["real", "complex", "complex"], ["negint", "real", "complex"], ["real", "real", "complex"], ["negint", "complex", "real"]])
+    for b in range(nblock):
+        blk = {"ops": [["T", [30, 55][:B] if (B > 1 and b == 0) else rng.choice([20, 30, 45, 60, 90]), rng.choice([0, 10, 40, 90])]]}
+        kv = [0.0] * d
+        while not any(kv):
+            kv = [rng.randint(-6, 6) * 0.25 for _ in range(d)]
+        blk["ops"] += [["S", kv], ["C", rng.choice([0.5, 1.0, 1.5, 2.0])]]
+        props = {}
+        if b == 0 or rng.random() < 0.8:
+            sh = rng.choice([(), (), rng.choice(shapes), rng.choice(shapes)])
+            v = value(wkinds[b], sh)
+            props["weights"] = {"kind": wkinds[b], "shape": list(sh), "values": v}
+        if b == 0 or rng.random() < 0.8:
+            sh = rng.choice([(), (), rng.choice(shapes)])
+            n = int(np.prod(sh)) if sh else 1
+            if mkinds[b] == "complex":
+                props["modulation"] = {"kind": "complex", "shape": list(sh), "re": [-rng.randint(0, 15) / 32 for _ in range(n)],
+                                       "im": [rng.randint(-16, 16) / 64 + 0.0078125 for _ in range(n)]}
+            else:
+                props["modulation"] = {"kind": mkinds[b], "shape": list(sh), "re": value(mkinds[b], sh), "im": None}
+        blk["system"] = props
+        blocks.append(blk)
+    return {"kind": "system_redefine", "blocks": blocks, "pos": pos, "kgrid": 0.25,
+            "voxel_shape": rng.choice(["box", "point"]), "voxel_size": rng.choice([0.5, 0.8, 1.25])}
+
+
+def redefine_value(p, name):
+    if p is None:
+        return None
+    sh = tuple(p["shape"])
+    if name == "weights":
+        return np.array(p["values"], dtype=int if p["kind"] == "int" else float).reshape(sh)
+    re_ = np.array(p["re"], dtype=int if p["kind"] == "negint" else float).reshape(sh)
+    return re_ if p["kind"] != "complex" else re_ + 1j * np.array(p["im"], dtype=float).reshape(sh)
+
+
+def run_redefine(c):
+    """(values per block through System, values per block with explicit probe arguments); the System properties in force at
+    block b are the latest definitions up to b"""
+    import epgpy as epg
+    from epgpy.probe import Imaging
+    pos = np.array(c["pos"], dtype=float)
+    popts = {"voxel_shape": c["voxel_shape"], "voxel_size": c["voxel_size"], "reduce": False}
+    seq_sys, seq_arg = [], []
+    cur = {"weights": None, "modulation": None}
+    for blk in c["blocks"]:
+        props = {k_: redefine_value(v_, k_) for k_, v_ in blk["system"].items()}
+        cur.update(props)
+        ops = build_ops(blk["ops"])
+        seq_sys += [epg.System(**props)] + ops + [Imaging(pos, **popts)]
+        kw = {k_: v_ for k_, v_ in cur.items() if v_ is not None}
+        seq_arg += build_ops(blk["ops"]) + [Imaging(pos, **popts, **kw)]
+    va = [np.asarray(v) for v in epg.simulate(seq_arg, kgrid=c["kgrid"], asarray=False)]
+    vs = [np.asarray(v) for v in epg.simulate(seq_sys, kgrid=c["kgrid"], asarray=False)]
+    return vs, va
+
+
+def redefine_verdict(c):
+    """None or a description of the first block where the System route and the argument route differ"""
+    try:
+        _, va = None, None
+        import epgpy as epg
+        vs, va = run_redefine(c)
+    except Exception as e:
+        return "raises %s: %s" % (type(e).__name__, str(e)[:200])
+    for b, (x, y) in enumerate(zip(vs, va)):
+        if x.shape != y.shape:
+            return "block %d: shape via System %s, via arguments %s" % (b, x.shape, y.shape)
+        if np.abs(x - y).max() > 1e-12 * (1 + np.abs(y).max()):
+            return "block %d (System(%s)): via System %s, via arguments %s" % (
+                b, ", ".join("%s=%s %s" % (k_, v_["kind"], v_["shape"]) for k_, v_ in c["blocks"][b]["system"].items()), x.tolist(), y.tolist())
+    return None
+
+
+def system_redefine(ctx):
+    n = 12 if ctx.tier == "quick" else 200
+    bad = 0
+    for _ in range(n):
+        c = gen_redefine(ctx.rng)
+        why = redefine_verdict(c)
+        ctx.count(("system_redefine", json.dumps(c, sort_keys=True)))
+        if why:
+            bad += 1
+            if bad <= 2:
+                ctx.report("System() properties re-defined along the sequence are not equivalent to the same values passed as probe arguments: " + why,
+                           dict(c, detail=why), found_input=True, signature={"system": "redefinition"})
+    ctx.cov["system_redefinition_cases"] = n
+    ctx.cov["system_redefinition_differing"] = bad
+
+
 # ------------------------------------------------------------------ (d) repeated use
 def repeated_use(ctx):
     import epgpy as epg
@@ -902,6 +1018,7 @@ def run(ctx):
     oracle(ctx)
     t2 = time.time()
     system_equiv(ctx)
+    system_redefine(ctx)
     repeated_use(ctx)
     ctx.notes["t_tie_s"], ctx.notes["t_oracle_s"], ctx.notes["t_rest_s"] = round(t1 - t0, 1), round(t2 - t1, 1), round(time.time() - t2, 1)
     ctx.cov["trusted_base"] += [
@@ -943,6 +1060,10 @@ def replay(ctx, rp):
         e_g, e_iso, a, b = oracle_offres(rp)
         print("replay: |modulation - offres| %.3g, vs isochromats %.3g" % (e_g, e_iso))
         return 1 if max(e_g, e_iso) > 1e-9 else 0
+    if kind == "system_redefine":
+        why = redefine_verdict(rp)
+        print("replay: %s" % (why or "System route and argument route agree on every block"))
+        return 1 if why else 0
     if kind == "oracle_btime":
         err, txt = oracle_btime(rp)
         print("replay: %s (%s)" % ("max |diff| %.3g" % err if err else "no discrepancy", txt))
